@@ -236,6 +236,12 @@ def _judge(ctx, c_enc1, c_enc2, c_enc3, c_enc4, c_enc6, cls, indirect):
         size_inc = lin_inc(kw.get("size"), "ind_sz")
         size_dyn = size_inc is None and re.search(r"\b(byte_len|hex_len)\(", repr(kw.get("size"))) is not None
         max_inc = lin_inc(kw.get("max_size"), "ind_sz")
+        if isinstance(kw.get("size"), Const) and isinstance(kw.get("size").v, int):
+            # the size no longer contains the instruction's own ind_sz: it was overwritten (size = 2) instead of increased
+            emit(c_enc2, "finding", site0 + ":size-constant", "a return path reports the constant size %d" % kw.get("size").v,
+                 "%s.translate() has a path (operand %s%s) that returns size=%d, a constant that does not include the opcode and post-byte bytes (mode.ind_sz): every statement after it is "
+                 "placed too low and every displacement across it is short" % (cls, "<value>," if left is VAL else ("%s," % left if left else ","), right, kw.get("size").v), where)
+            continue
         anr = kw.get("additional_needs_resolution")
         anr = anr.v if isinstance(anr, Const) else (False if anr is None else None)
         choices = kw.get("post_byte_choices")
@@ -550,6 +556,17 @@ def _run(ctx, c, which):
 
 def enc1(ctx, c):
     _run(ctx, c, "ENC-1")
+    # PC-relative addressing is selected by the REGISTER half of the operand being PCR, not by the letters PCR occurring somewhere in the operand
+    for cls in ("IndexedOperand", "ExtendedIndexedOperand"):
+        fn = ctx.repo.method(cls, "translate", inherited=False)
+        for x in ast.walk(fn.node):
+            if isinstance(x, ast.Compare) and len(x.ops) == 1 and isinstance(x.ops[0], (ast.In, ast.NotIn)) and isinstance(x.left, ast.Constant) and x.left.value == "PCR":
+                if U(x.comparators[0]) != "self.right":
+                    c.finding("%s.translate:pcr-test" % cls, "PC-relative is chosen when `%s`" % U(x)[:50],
+                              "%s.translate selects the PC-relative forms under `%s`: that is a substring test on more than the register half, so an operand whose offset symbol merely contains "
+                              "the letters PCR (PCROFF,X) is encoded as n,PCR and its register is lost" % (cls, U(x)[:60]), ctx.repo.loc(fn, x))
+                else:
+                    c.ok("%s.translate:pcr-test" % cls, "PCR is looked for in the register half", ctx.repo.loc(fn, x))
 
 
 def enc2(ctx, c):
@@ -677,6 +694,19 @@ CASCADE_CONSTRAINTS = [
 
 def enc7(ctx, c):
     repo = ctx.repo
+    # a resolved offset keeps its sign: Value.int is the magnitude only, so re-wrapping a resolved value as NumericValue(x.int) turns S-20 into +20
+    for cn_ in ("IndexedOperand", "ExtendedIndexedOperand"):
+        if not repo.has_cls(cn_) or "resolve_symbols" not in repo.cls(cn_).methods:
+            continue
+        rs_ = repo.cls(cn_).methods["resolve_symbols"]
+        hits_ = [x for x in ast.walk(rs_.node) if isinstance(x, ast.Call) and U(x.func).endswith("NumericValue") and x.args and re.fullmatch(r"self\.(left|right|value)\.int", U(x.args[0]))
+                 and not any(k.arg in ("negative", "sign") for k in x.keywords)]
+        if hits_:
+            c.finding("%s.resolve_symbols:sign" % cn_, "a resolved value is rebuilt from its magnitude (%s)" % U(hits_[0])[:40],
+                      "%s.resolve_symbols does `%s` after resolving the operand: .int holds the magnitude, the sign lives in a separate flag, so an offset expression that comes out "
+                      "negative (S-20 with S = 16) is encoded as a positive offset" % (cn_, U(hits_[0])[:50]), repo.loc(rs_, hits_[0]))
+        else:
+            c.ok("%s.resolve_symbols:sign" % cn_, "resolved values are kept as resolved", repo.loc(rs_, rs_.node))
     fn = repo.method("Operand", "create_from_str", inherited=False)
     where = repo.loc(fn, fn.node)
     order = []
